@@ -19,6 +19,7 @@ claimed={
 "C11":("A","exploration","Same simulator; Shutdown (graceful/forced, deadlines on the fake clock) begun in any state with concurrent clients; at the step Shutdown returns: no unfinished job, no executing task, last successfully saved snapshot equals the reported state; graceful lets running jobs finish, forced cancels them; persist liveness evaluated after three persist pauses in settled states."),
 "C12":("A","exploration","Same simulator with the real FileOutputStore; at every SaveToStore step the removed set is checked against retention_count / retention_period / definition removal, the snapshot handed to the store against the API view of the same instant, and the log directory listing before/after."),
 "C13":("A","exploration","Race-detector build of the same simulator in which the simulator's own hand-offs are hidden from the detector, so that two conflicting accesses that are not ordered by prunner's own synchronisation are reported even though the schedule is fully serialised; readers are parked inside IterateJobs/ReadJob callbacks and saves inside log removal so that lock holders overlap; every exported operation is issued concurrently with jobs, timers and the persist loop. Oracle: race report / fatal error / panic involving prunner code, minimised and re-verified in a fresh process."),
+"C14":("A","exploration","HTTP clients against the real chi router + jwtauth middleware + handlers (no sockets) while jobs run in the same simulator: routes are discovered by walking the router, credentials drawn from 13 classes over 3 transports with profiling on/off; exp/nbf claims sit at seeded distances from the fake now and the clock is advanced across them between requests. Every answer is judged against nbf <= now < exp; a rejected request must leave the runner's state digest and the stub untouched and reveal nothing. Honest scope: the route x credential table is enumeration reached by sampling (cells reached are listed in the evidence); the simulator contributes the clock and the live runner."),
 "C15":("A","exploration","Same simulator; list-then-schedule probes executed atomically by the driver in settled states; visibility, ordering and timestamp invariants on every step."),
 "C16":("A","exploration","Same simulator with seeded definition mutations; what the stub is asked to run is compared with the definition installed when the job was accepted; reload steps must not change any job."),
 }
